@@ -122,10 +122,16 @@ Definition b_resp (kids : list (Z * (wspec * Z))) (c : Z) : Z :=
 Definition pol_of (discard : bool) : Batch.persistence :=
   if discard then Batch.DiscardFromMemory else Batch.PersistInMemory.
 
-Definition b_run (discard : bool) (p_cfg p_run : nat) (t : tables) (order : list Z)
+(* [fmtmap]: what the sink's format_response makes of a response in place (a CSV mapping with
+   non-optional paths records its errors in the response); empty = nothing is rewritten *)
+Definition b_fmt (fmtmap : list (Z * Z)) (r : Z) : Z :=
+  match zlookup fmtmap r with Some x => x | None => r end.
+
+Definition b_run_fmt (fmtmap : list (Z * Z)) (discard : bool) (p_cfg p_run : nat) (t : tables) (order : list Z)
   : res (@Batch.outcome Z) :=
   @Batch.run FN Z Z (b_plugins t) (b_weight (t_kids t)) (b_resp (t_kids t)) (b_resp (t_kids t))
-             (fun r => r) (fun _ => true) (pol_of discard) p_cfg p_run order.
+             (b_fmt fmtmap) (fun _ => true) (pol_of discard) p_cfg p_run order.
+Definition b_run := b_run_fmt [].
 
 (* [rowmap]: for a sink whose records are not the responses themselves (CSV), the id of the
    record the REAL ResponseOutputFormat::format_response makes of each response; empty = the
@@ -143,8 +149,8 @@ Definition show_outcome (sink : bool) (rowmap : list (Z * Z)) (o : @Batch.outcom
 (* [flags]: verdicts of the harness's request-echo and single-response oracles, copied verbatim
    (they are not model output; the S line states what they must be) *)
 Definition batch_line (id : Z) (discard sink : bool) (p_cfg p_run : nat) (t : tables)
-           (order : list Z) (flags : string) (rowmap : list (Z * Z)) : string :=
-  line "M" id (match b_run discard p_cfg p_run t order with
+           (order : list Z) (flags : string) (rowmap fmtmap : list (Z * Z)) : string :=
+  line "M" id (match b_run_fmt fmtmap discard p_cfg p_run t order with
                | Ok o => "Ok " ++ show_outcome sink rowmap o ++ flags
                | r => show_res (show_outcome sink rowmap) r
                end).
@@ -163,16 +169,17 @@ Definition batch_bins (p_cfg p_run : nat) (t : tables) (order : list Z) : string
    answers and a query without a grid section has exactly one response (flags).
    Parallelism 0 is outside the property (1..#cores). *)
 Definition batch_spec_line (id : Z) (discard sink : bool) (p_run : nat) (alone : list (Z * list Z))
-           (order : list Z) (impl_ret impl_wr : list Z) (impl_ok : bool) (rowmap : list (Z * Z)) : string :=
+           (order : list Z) (impl_ret impl_wr : list Z) (impl_ok : bool) (rowmap fmtmap : list (Z * Z)) : string :=
   line "S" id
     (if Nat.eqb p_run 0 then "unspecified" else
      let expected := zsort (flat_map (fun q => match zlookup alone q with Some l => l | None => [(-1)%Z] end) order) in
-     let ret_ok := if discard then true else zlist_eqb (zsort impl_ret) expected in
+     let ret_ok := if discard then true else zlist_eqb (zsort impl_ret) (zsort (map (b_fmt fmtmap) expected)) in
      let wr_ok := if sink then zlist_eqb (zsort impl_wr) (zsort (map_rows rowmap expected)) else true in
      if impl_ok && ret_ok && wr_ok
      then "Ok ret=" ++ show_list show_Z impl_ret
           ++ " wr=" ++ (if sink then show_list show_Z (zsort impl_wr) else "-") ++ " echo=T single=T"
-     else "REJECT expected multiset " ++ show_list show_Z expected).
+     else "REJECT expected multiset " ++ show_list show_Z expected
+          ++ (match rowmap with [] => "" | _ => " = sink records " ++ show_list show_Z (zsort (map_rows rowmap expected)) end)).
 
 (* ---- expansion cases: one query alone.  M: the faithful model; S: every expanded query
    answered on its own (Batch.answer_ideal) -- they differ exactly in the class
